@@ -62,16 +62,4 @@ theorem absolute_column_is_r_times_ratio (cfg : Cfg) (first : String) (r : Seg) 
   unfold absoluteCol
   simp [absoluteOf, purityActive_one]
 
-/-- `verify_sample_sex` -/
-theorem verify_sample_sex_is_the_source (guess : Bool) (sexArg : Option String) :
-    verifySampleSex guess sexArg = Generated.src_verify_sample_sex guess (sexArg.getD "") :=
-  Src.verifySampleSex_is_source guess sexArg
-
-/-- the label `_cmd_export_bed` hands to `export_bed` (which only tests its truthiness: `none` and `""` both mean
-    "use the gene names") -/
-theorem cmd_bed_label_is_the_source (sampleId : Option String) (labelGenes : Bool) (segId : String) :
-    (cmdBedLabel sampleId labelGenes segId).getD "" =
-      Generated.src_cmd_export_bed_label (sampleId.getD "") labelGenes segId :=
-  Src.cmdBedLabel_is_source sampleId labelGenes segId
-
 end CnvVerif.C20
